@@ -164,7 +164,7 @@ pub fn detect_key(codec: u8, data: &[u8], frame_index: u64) -> Option<bool> {
             let u = units(data);
             if u.iter().any(|n| n[0] & 0x1f == 5) {
                 Some(true)
-            } else if !u.is_empty() && u.iter().all(|n| matches!(n[0] & 0x1f, 1 | 6 | 9)) {
+            } else if !u.is_empty() && u.iter().all(|n| matches!(n[0] & 0x1f, 1..=4 | 6 | 9..=31)) {
                 Some(false)
             } else {
                 None
@@ -175,7 +175,7 @@ pub fn detect_key(codec: u8, data: &[u8], frame_index: u64) -> Option<bool> {
             let t = |n: &&[u8]| (n[0] >> 1) & 0x3f;
             if u.iter().any(|n| (19..=21).contains(&t(n))) {
                 Some(true)
-            } else if !u.is_empty() && u.iter().all(|n| t(n) <= 9 || t(n) == 35 || t(n) == 39) {
+            } else if !u.is_empty() && u.iter().all(|n| t(n) <= 15 || t(n) >= 35) {
                 Some(false)
             } else {
                 None
